@@ -155,7 +155,7 @@ def batch(arg):
         other = dict(st, n_hof=2, n_pop=2)
         run_once("evo" if kind != "evo" else "hyb", "linear3" if tname != "linear3" else "star3", other, seed + 17)
         sig3, _ = run_once(kind, tname, st, seed)
-        out.append({"case": case, "sig": sig1, "same_process_repeat": sig2 == sig1, "after_other_run": sig3 == sig1,
+        out.append({"case": case, "pos": len(out), "sig": sig1, "same_process_repeat": sig2 == sig1, "after_other_run": sig3 == sig1,
                     "problems": [[a, b, json.loads(core.jdump(c))] for a, b, c in (checks or [])],
                     "nontrivial": len({h[1] for h in sig1["hof"] if h and h[1]}) >= 2})
     return out
@@ -168,12 +168,16 @@ def all_cases(tier):
     return cases
 
 
-def judge(acc, res):
+def judge(acc, res, batch=None):
+    """batch: {"tier", "nslices"} when res comes from the sliced grid - violations then record which cases ran before in the same interpreter,
+    because a leak through process-global state (an unseeded generator, a mutated default) shows only after that history."""
     ref = {}
     for (hs, i), items in sorted(res.items()):
         for it in items:
             case = it["case"]
             key = core.jdump(case)
+            if batch is not None:
+                case = dict(case, ran_after={"tier": batch["tier"], "nslices": batch["nslices"], "slice": i, "pos": it.get("pos", 0)})
             acc.evaluations += 3
             acc.transitions += 3 * case["setting"]["n_stop"] * case["setting"]["n_pop"]
             if not it["same_process_repeat"]:
@@ -207,7 +211,7 @@ def run(tier, seed):
         res = hsrun.launch("vt.props.c19", "batch", args, hashseeds, work)
     finally:
         shutil.rmtree(work, ignore_errors=True)
-    judge(acc, res)
+    judge(acc, res, {"tier": tier, "nslices": nslices})
     acc.counters["hash_seeds"] = len(hashseeds)
     # fully owned tiny configuration, in this process
     tiny = core.run_pool("vt.props.c19", [{"kind": "tiny", "solver": k, "target": t} for k in ("evo", "hyb") for t in ("linear3", "cycle4")], tier)
@@ -287,10 +291,17 @@ def replay_case(case, acc):
         return
     from .. import hsrun
     base = {k: case[k] for k in ("solver", "target", "setting", "seed")}
+    cases = [base]
+    ra = case.get("ran_after")
+    if ra:
+        # re-run the same interpreter history: the cases of that slice up to and including this one
+        cases = all_cases(ra["tier"])[ra["slice"]::ra["nslices"]][:ra["pos"] + 1]
+        if cases[-1] != base:
+            raise core.HarnessError("recorded history does not end in the recorded case (case grid changed since the file was written)")
     hashseeds = sorted(set([0, 1] + list(case.get("hashseeds", [])) + ([case["hashseed"]] if "hashseed" in case else [])))
     work = tempfile.mkdtemp(prefix="c19r_", dir=os.environ.get("VERIF_SCRATCH", "/var/tmp"))
     try:
-        res = hsrun.launch("vt.props.c19", "batch", [{"cases": [base], "honesty": True}], hashseeds, work)
+        res = hsrun.launch("vt.props.c19", "batch", [{"cases": cases, "honesty": True}], hashseeds, work)
     finally:
         shutil.rmtree(work, ignore_errors=True)
     judge(acc, res)
